@@ -38,6 +38,12 @@ mod c17;
 #[cfg(any(verif_all, verif_c18))]
 #[path = "/verif/harness/daemon/c18.rs"]
 mod c18;
+// C19 lives here (not under main_hook.rs) since its end-to-end items drive `accept_connection` / `run_select` /
+// `on_established` (private to `event`) through rig.rs; the converters in bmp.rs / mrt.rs are reached through
+// their own hook modules (c19_bmp.rs, c19_mrt.rs).
+#[cfg(any(verif_all, verif_c19))]
+#[path = "/verif/harness/daemon/c19.rs"]
+mod c19;
 #[cfg(any(verif_all, verif_c20))]
 #[path = "/verif/harness/daemon/c20.rs"]
 mod c20;
